@@ -143,6 +143,10 @@ class StmtMixin:
             if isinstance(p, StrListP):
                 p.writes.append((j, v))
                 return
+            if isinstance(p, RecListP) and isinstance(v, VTuple) and getattr(v, "cls", None) == p.cls:
+                for fname, val in zip(list(SCHEMA[p.cls]), v.items):
+                    p.fields[fname] = z3.Store(p.fields[fname], j, val.t)
+                return
             raise Unsupported(f"store into {type(p).__name__}")
         return self.store_index_special(base, idx, v, node, fr)
 
